@@ -576,7 +576,7 @@ func validateHeaderParameters(h map[any]any, protected bool) error {
 				// Basic check that the content type is of form type/subtype.
 				// We don't check the precise definition though (RFC 6838 Section 4.2).
 				// (parameters after the first ";" may contain "/" themselves)
-				if mediaType, _, _ := strings.Cut(v, ";"); strings.Count(mediaType, "/") != 1 {
+				if mediaType, _, _ := strings.Cut(v, ";"); strings.Count(mediaType, "/") != 1 || strings.HasPrefix(mediaType, "/") || strings.HasSuffix(strings.TrimRight(mediaType, " \t"), "/") {
 					return errors.New("header parameter: type: require text of form type/subtype")
 				}
 			}
@@ -596,7 +596,7 @@ func validateHeaderParameters(h map[any]any, protected bool) error {
 				// Basic check that the content type is of form type/subtype.
 				// We don't check the precise definition though (RFC 6838 Section 4.2).
 				// (parameters after the first ";" may contain "/" themselves)
-				if mediaType, _, _ := strings.Cut(v, ";"); strings.Count(mediaType, "/") != 1 {
+				if mediaType, _, _ := strings.Cut(v, ";"); strings.Count(mediaType, "/") != 1 || strings.HasPrefix(mediaType, "/") || strings.HasSuffix(strings.TrimRight(mediaType, " \t"), "/") {
 					return errors.New("header parameter: content type: require text of form type/subtype")
 				}
 			}
